@@ -197,6 +197,15 @@ def run_case(case):
             prog[rng.randrange(len(prog))][1].insert(1, ("goto", tgt) if rng.random() < 0.5 else
                                                     ("on", ("var", "A"), "GOTO", [nums[0], tgt]))
             want = "ParseError"
+        elif what == "missing-target-in-remark":
+            # the missing line number stands, like a numbered line, inside a remark (or an open string constant) behind a
+            # character that line-splitting routines of the host language take for a line end: it is still missing
+            tgt = max(nums) + 7
+            ch = rng.choice(["\x0b", "\x0c", "\x1c", "\x1d", "\x1e", "\x85", "\u2028", "\u2029"])
+            prog[rng.randrange(len(prog))][1].insert(1, ("goto", tgt) if rng.random() < 0.5 else ("gosub", tgt))
+            prog.append((max(nums) + 3, [("rem", " END OF PAGE" + ch + "%d PRINT 1" % tgt, "REM")] if rng.random() < 0.6 else
+                         [("let", ("var", "Q$"), ("ostr", "PAGE" + ch + "%d PRINT 1" % tgt), False)]))
+            want = "ParseError"
         elif what == "line-too-large":
             prog.append((rng.choice([32700, 32701, 40000, 65535]), [("rem", " BIG", "REM")]))
             want = "LineNumberTooLargeException"
@@ -330,7 +339,7 @@ def cases(tier, seed):
     for ln in (32698, 32699, 32700, 32701, 32767, 32768, 65535, 100000):
         for o in OPTS[:2]:
             yield {"kind": "boundary", "line": ln, "seed": ln, "opts": o}
-    whats = ["missing-target", "line-too-large", "two-on-err", "two-on-brk"]
+    whats = ["missing-target", "line-too-large", "two-on-err", "two-on-brk", "missing-target-in-remark"]
     for i in range(n // 8):
-        # (i // 4: every kind of refusal under every option set - what must be refused does not depend on the options)
-        yield {"kind": "refuse", "what": whats[i % 4], "seed": seed * 69621 + i, "opts": OPTS[(i // 4) % len(OPTS)]}
+        # (i // 5: every kind of refusal under every option set - what must be refused does not depend on the options)
+        yield {"kind": "refuse", "what": whats[i % 5], "seed": seed * 69621 + i, "opts": OPTS[(i // 5) % len(OPTS)]}
